@@ -246,7 +246,7 @@ def gen_cases(ctx, n):
     while len(out) < n:
         ids = hg.Ids()
         r = rng.random()
-        depth = rng.choice([1, 2, 2, 3, 3, 4])
+        depth = rng.choice([2, 2, 3, 3, 4, 4])
         if r < 0.12:
             t1 = hg.value(rng, ids, max(depth, 2))
             if hg.add_cycle(rng, t1, ids) is None:
@@ -267,7 +267,7 @@ def gen_cases(ctx, n):
             t2[2] = t2[2][::-1]
             out.append(("reorder", t1, t2, rng.randrange(100)))
         else:
-            t1 = hg.value(rng, ids, depth)
+            t1 = hg.value(rng, ids, depth, top=True)
             m, t2 = hg.mutate(rng, t1, ids)
             out.append((m, t1, t2, rng.randrange(100)))
     return out
